@@ -442,7 +442,10 @@ def mk_algo(bt, d, tickers, dates, data, perturb=None):
     if n == "Rebalance":
         return a.Rebalance()
     if n == "RebalanceOverTime":
-        return a.RebalanceOverTime(d[1])
+        r = a.RebalanceOverTime(d[1])
+        if len(d) > 2 and d[2]:
+            a.run_always(r)       # called on every run(), also after an earlier algo of the stack answered False
+        return r
     raise ValueError(n)
 
 
